@@ -42,13 +42,43 @@ pub open spec fn only_listed_removed(o: Map<u32, Partition>, f: Map<u32, Partiti
             ==> f[k].segments@.contains(o[k].segments@[j])
 }
 
-// STUB: delete_segments (maintain_messages.rs) is C14's subject (unit retention); here its effect is bounded by
-// only_listed_removed. It reaches the partitions through their locks, hence `&mut Topic` (R6).
-#[verifier::external_body]
-pub fn delete_segments(topic: &mut Topic, segments_to_delete: &[SegmentsToHandle]) -> (r: Result<HandledSegments, IggyError>)
-    ensures only_listed_removed(old(topic).partitions@, final(topic).partitions@, segments_to_delete@),
-        *final(topic) == (Topic { partitions: final(topic).partitions, ..*old(topic) }),
-{ unimplemented!() }
+// STUBS for the partition layer (C14's subject: unit retention proves these shapes of the real functions —
+// [C14.only.delete_segment.exact/.err], [C14.shape.delete_segment.found], [C14.shape.count], [C14.off.add.*]).
+impl Partition {
+    // real: Segment::delete + `segments.retain(|s| s.start_offset != start_offset)`; Err(SegmentNotFound) if none
+    #[verifier::external_body]
+    pub fn delete_segment(&mut self, start_offset: u64) -> (r: Result<DeletedSegment, IggyError>)
+        ensures
+            final(self).partition_id == old(self).partition_id,
+            forall|j: int| 0 <= j < old(self).segments@.len() && (#[trigger] old(self).segments@[j]).start_offset != start_offset
+                ==> final(self).segments@.contains(old(self).segments@[j]),
+            r is Ok ==> r->Ok_0.messages_count <= 0x1_0000_0000
+                && exists|i: int| 0 <= i < old(self).segments@.len() && (#[trigger] old(self).segments@[i]).start_offset == start_offset
+                    && r->Ok_0.end_offset == old(self).segments@[i].end_offset,
+    { unimplemented!() }
+
+    // real: Segment::create + persist + push + sort — every existing segment stays
+    #[verifier::external_body]
+    pub fn add_persisted_segment(&mut self, start_offset: u64) -> (r: Result<(), IggyError>)
+        ensures
+            final(self).partition_id == old(self).partition_id,
+            forall|j: int| 0 <= j < old(self).segments@.len() ==> final(self).segments@.contains(#[trigger] old(self).segments@[j]),
+    { unimplemented!() }
+}
+
+// every segment of `o` that the list does not name (for partition pid) is still in `f`
+pub open spec fn kept_from(o: Partition, f: Partition, list: Seq<SegmentsToHandle>, pid: u32) -> bool {
+    forall|j: int| 0 <= j < o.segments@.len() && !listed(list, pid, (#[trigger] o.segments@[j]).start_offset)
+        ==> f.segments@.contains(o.segments@[j])
+}
+
+// offsets are message counts: no segment ends at u64::MAX (needed for `last_end_offset + 1`)
+pub open spec fn ends_bounded(m: Map<u32, Partition>) -> bool {
+    forall|k: u32, j: int| m.contains_key(k) && 0 <= j < m[k].segments@.len() ==> (#[trigger] m[k].segments@[j]).end_offset < u64::MAX
+}
+pub open spec fn ids_are_keys(m: Map<u32, Partition>) -> bool {
+    forall|k: u32| #[trigger] m.contains_key(k) ==> m[k].partition_id == k
+}
 
 // an entry of get_oldest_segments' answer: names exactly segments[0] of an existing partition, and that one is closed
 pub open spec fn oldest_entry_ok(m: Map<u32, Partition>, e: SegmentsToHandle) -> bool {
@@ -81,4 +111,45 @@ pub open spec fn c15_proceeds(o: Map<u32, Partition>, f: Map<u32, Partition>, ms
 
 pub open spec fn all_oldest_ok(m: Map<u32, Partition>, v: &Vec<SegmentsToHandle>) -> bool {
     forall|i: int| 0 <= i < v@.len() ==> oldest_entry_ok(m, #[trigger] v@[i])
+}
+
+// the gate of the statement: a send (>= 1 message, topic has partitions) to a topic that is at or above its limit while
+// deletion of oldest segments is DISABLED is refused with TopicFull — and TopicFull is given for no other reason
+pub open spec fn c15_gate(t: &Topic, msgs: Seq<Message>, refused: bool) -> bool {
+    &&& refused ==> topic_full(t) && !t.config.topic.delete_oldest_segments
+    &&& t.partitions@.len() != 0 && msgs.len() > 0 && topic_full(t) && !t.config.topic.delete_oldest_segments ==> refused
+}
+
+// completeness of the pick (helper): a partition whose oldest segment is closed is named, with exactly that segment
+pub open spec fn due(p: Partition) -> bool { p.segments@.len() > 0 && p.segments@[0].is_closed }
+pub open spec fn has_entry_for(v: Seq<SegmentsToHandle>, p: Partition) -> bool {
+    exists|i: int| 0 <= i < v.len() && (#[trigger] v[i]).partition_id == p.partition_id
+        && v[i].start_offsets@ =~= seq![p.segments@[0].start_offset]
+}
+pub open spec fn all_due_listed(vals: Seq<&Partition>, upto: int, v: &Vec<SegmentsToHandle>) -> bool {
+    forall|idx: int| 0 <= idx < upto && due(*#[trigger] vals[idx]) ==> has_entry_for(v@, *vals[idx])
+}
+
+// technical: entries found before a push are still found after it, and the pushed entry is found
+pub proof fn lemma_entries_after_push(vals: Seq<&Partition>, upto: int, before: Seq<SegmentsToHandle>, after: Seq<SegmentsToHandle>)
+    requires
+        0 <= upto < vals.len(),
+        after.len() == before.len() + 1,
+        forall|i: int| 0 <= i < before.len() ==> after[i] == before[i],
+        forall|idx: int| 0 <= idx < upto && due(*#[trigger] vals[idx]) ==> has_entry_for(before, *vals[idx]),
+        due(*vals[upto]) ==> after[before.len() as int].partition_id == vals[upto].partition_id
+            && after[before.len() as int].start_offsets@ =~= seq![vals[upto].segments@[0].start_offset],
+    ensures
+        forall|idx: int| 0 <= idx < upto + 1 && due(*#[trigger] vals[idx]) ==> has_entry_for(after, *vals[idx]),
+{
+    assert forall|idx: int| 0 <= idx < upto + 1 && due(*#[trigger] vals[idx]) implies has_entry_for(after, *vals[idx]) by {
+        if idx < upto {
+            let p = *vals[idx];
+            let i = choose|i: int| 0 <= i < before.len() && (#[trigger] before[i]).partition_id == p.partition_id
+                && before[i].start_offsets@ =~= seq![p.segments@[0].start_offset];
+            assert(after[i] == before[i]);
+        } else {
+            assert(after[before.len() as int].partition_id == vals[upto].partition_id);
+        }
+    }
 }
